@@ -760,9 +760,18 @@ class World:
 
         @reg("sorted")
         def _sorted(it, a, k):
+            from .values import ObjSeq
+            if isinstance(a[0], ObjSeq) and not (set(k) - {"key", "reverse"}):
+                c = a[0].copy()                       # sorted(xs, key=...) = a sorted copy
+                it.objseq_method(c, "sort", [], dict(k))
+                return c
             xs = it.iterate(a[0])
             if any(is_symbolic(x) or isinstance(x, Obj) for x in xs) or k:
-                raise Unsupported("sorted of symbolic values")
+                if set(k) - {"key", "reverse"}:
+                    raise Unsupported("sorted() keyword")
+                c = list(xs)
+                it.list_sort(c, k.get("key"), k.get("reverse", False))
+                return c
             return sorted(xs)
 
         @reg("print")
